@@ -52,17 +52,22 @@ Definition script2 (vs : list Z) : rule2 nat := fun i n c t => (S i, nth i vs 0)
 Definition store_id (z : Z) : Z := z.
 
 (* the rule families as data, so that generated cases can name a rule *)
-Inductive rule_spec := RLin (ws : list Z) (m : Z) | RLinCT (ws : list Z) (m : Z) | RScript (vs : list Z).
+(* RAff ws b m: pure affine rule (sum(w_i * n_i) + b) mod m — unlike RLin it need not map the all-zero
+   neighbourhood to 0 *)
+Inductive rule_spec := RLin (ws : list Z) (m : Z) | RLinCT (ws : list Z) (m : Z) | RScript (vs : list Z)
+  | RAff (ws : list Z) (b m : Z).
 (* one state type for all families: the call counter (ignored by the pure ones) *)
 Definition spec_rule1 (sp : rule_spec) : rule1 nat :=
   match sp with
   | RLin ws m => fun i n c t => (S i, snd (lin1 ws m tt n c t))
   | RLinCT ws m => fun i n c t => (S i, snd (linct1 ws m tt n c t))
   | RScript vs => script1 vs
+  | RAff ws b m => fun i n c t => (S i, (lin_dot ws n + b) mod m)
   end.
 Definition spec_rule2 (sp : rule_spec) : rule2 nat :=
   match sp with
   | RLin ws m => fun i n c t => (S i, snd (lin2 ws m tt n c t))
   | RLinCT ws m => fun i n c t => (S i, snd (linct2 ws m tt n c t))
   | RScript vs => script2 vs
+  | RAff ws b m => fun i n c t => (S i, (lin_dot ws (unmasked n) + b) mod m)
   end.
